@@ -35,6 +35,7 @@ func stateJobs(quick bool) []gossipJob {
 			{P: P("S3", 165, 2, 2, 0, 1, false), Need: []string{"TruncatedDeltas"}},
 			{P: P("S5", 130, 2, 3, 0, 1, false), Need: []string{"TruncatedDigests"}},
 			{P: P("S8", 1400, 3, 3, 0, 1, false), Need: []string{"LeavesSeen", "StaleDiscarded"}},
+			{P: P("S9", 170, 3, 3, 0, 1, false), Need: []string{"TruncatedDeltas"}},
 		}
 	}
 	d := sec(600)
@@ -52,6 +53,7 @@ func stateJobs(quick bool) []gossipJob {
 		{P: P("S5", 1400, 3, 4, 1, 2, false), Deadline: d},
 		{P: P("S8", 1400, 5, 4, 1, 2, false), Deadline: d, Need: []string{"LeavesSeen", "StaleDiscarded"}},
 		{P: P("S8", 145, 4, 4, 1, 2, false), Deadline: d, Need: []string{"LeavesSeen", "TruncatedDeltas"}},
+		{P: P("S9", 170, 4, 4, 1, 2, false), Deadline: d, Need: []string{"TruncatedDeltas"}},
 	}
 }
 
@@ -88,6 +90,7 @@ func init() {
 				{P: P("S5", 130, 2, 3, 0, 1, false), Need: []string{"ClosureDiverged", "TruncatedDigests"}},
 				{P: P("S7", 165, 3, 2, 0, 1, false)},
 				{P: P("S8", 1400, 3, 3, 0, 1, false), Need: []string{"ClosureDiverged"}},
+				{P: P("S9", 170, 3, 3, 0, 1, false), Need: []string{"ClosureDiverged", "TruncatedDeltas"}},
 			}
 		} else {
 			d := sec(600)
@@ -101,6 +104,7 @@ func init() {
 				{P: P("S5", 130, 3, 4, 0, 2, false), Deadline: d, Need: []string{"ClosureDiverged", "TruncatedDigests"}},
 				{P: P("S7", 165, 3, 3, 0, 2, false), Deadline: d},
 				{P: P("S8", 1400, 4, 4, 0, 2, false), Deadline: d, Need: []string{"ClosureDiverged"}},
+				{P: P("S9", 170, 4, 4, 0, 2, false), Deadline: d, Need: []string{"ClosureDiverged", "TruncatedDeltas"}},
 			}
 		}
 		runGossip(run, "C03", jobs)
